@@ -23,6 +23,8 @@ CONSTANTS
   NetMode,      \* "fifo" | "bag"
   MaxDup,       \* "bag": budget of duplicate deliveries
   MaxDrop,      \* "bag": budget of drops
+  MaxSMPStart, MaxSMPAnswer, MaxSMPAbort, \* budgets of SMP user calls
+  Secrets,      \* set of secret ids users may enter
   AllPol,       \* TRUE: both parties' policies range over all 64 policy sets (Pol is ignored)
   MaxOffer,     \* budget of attacker-made offers (queries / whitespace tags with arbitrary version lists)
   Export        \* TRUE: print the schedule of every transition
@@ -41,6 +43,8 @@ VARIABLES
   used,      \* party -> receiving MAC keys that verified an accepted message
   disclosedEver, \* party -> MAC keys disclosed in emitted messages
   leaks,     \* number of user texts emitted in clear although encryption was due
+  nrun,      \* SMP runs started so far
+  smplog,    \* party -> sequence of <<event, own term, term in the message>> for SMP outcomes
   txlog,     \* <<text, resent>> of every data message emitted that carries a user text
   phase,     \* "setup" | "free"
   budget,    \* record of remaining budgets
@@ -50,8 +54,8 @@ VARIABLES
   evlog,     \* party -> sequence of security events
   path       \* schedule (history, not part of the fingerprint)
 
-vars == <<st, net, nx, nt, nsend, pc, hiA, phase, budget, delivered, accepted, rejects, evlog, used, disclosedEver, leaks, txlog, path>>
-view == <<st, net, nx, nt, nsend, pc, hiA, phase, budget, delivered, accepted, rejects, evlog, used, disclosedEver, leaks, txlog>>
+vars == <<st, net, nx, nt, nsend, pc, hiA, phase, budget, delivered, accepted, rejects, evlog, used, disclosedEver, leaks, txlog, nrun, smplog, path>>
+view == <<st, net, nx, nt, nsend, pc, hiA, phase, budget, delivered, accepted, rejects, evlog, used, disclosedEver, leaks, txlog, nrun, smplog>>
 
 FreshId(p) == Base(p) + nx[p] + 1
 Uses(s, id) == s.ax = id \/ s.cur = id
@@ -75,8 +79,11 @@ Init ==
   /\ disclosedEver = [p \in Parties |-> {}]
   /\ leaks = 0
   /\ txlog = <<>>
+  /\ nrun = 0
+  /\ smplog = [p \in Parties |-> <<>>]
   /\ phase = IF Prelude # <<>> \/ PreludeDrain THEN "setup" ELSE "free"
-  /\ budget = [tick |-> MaxTick, end |-> MaxEnd, query |-> MaxQuery, extra |-> MaxExtra, dup |-> MaxDup, drop |-> MaxDrop, offer |-> MaxOffer]
+  /\ budget = [tick |-> MaxTick, end |-> MaxEnd, query |-> MaxQuery, extra |-> MaxExtra, dup |-> MaxDup, drop |-> MaxDrop, offer |-> MaxOffer,
+               smpstart |-> MaxSMPStart, smpanswer |-> MaxSMPAnswer, smpabort |-> MaxSMPAbort]
   /\ delivered = [p \in Parties |-> <<>>]
   /\ accepted = [p \in Parties |-> <<>>]
   /\ rejects = 0
@@ -109,7 +116,10 @@ DeliverMsg(p, m, own, idx, label) ==
        /\ delivered' = [delivered EXCEPT ![p] = IF r.plain # NoText THEN Append(@, <<r.plain, ~Unflagged(r)>>) ELSE @]
        /\ rejects' = IF m.t = "D" /\ (r.err \/ \E i \in DOMAIN r.evs : r.evs[i] = "msg:ReceivedMessageUnreadable")
                      THEN rejects + 1 ELSE rejects
-       /\ UNCHANGED <<nt, nsend, accepted>>
+       /\ smplog' = [smplog EXCEPT ![p] = @ \o [i \in 1..Len(SelectSeq(r.evs, LAMBDA e : e \in {"smp:Success", "smp:Failure", "smp:Cheated"})) |->
+                                  <<SelectSeq(r.evs, LAMBDA e : e \in {"smp:Success", "smp:Failure", "smp:Cheated"})[i], st[p].smpsec,
+                                    IF m.t = "D" THEN m.smp.sec ELSE <<>>, IF m.t = "D" THEN m.smp.run = st[p].smprun ELSE FALSE>>]]
+       /\ UNCHANGED <<nt, nsend, accepted, nrun>>
 
 \* FIFO delivery of the head of p's queue
 Deliver(p) ==
@@ -126,33 +136,33 @@ UserSend(p) ==
         /\ nt' = nt + 1
         /\ nsend' = [nsend EXCEPT ![p] = @ + 1]
         /\ accepted' = [accepted EXCEPT ![p] = IF st[p].ms = "enc" /\ ~r.err THEN Append(@, nt + 1) ELSE @]
-  /\ UNCHANGED <<phase, pc, budget, delivered, rejects, used>>
+  /\ UNCHANGED <<phase, pc, budget, delivered, rejects, used, nrun, smplog>>
 
 UserQuery(p) ==
   /\ phase = "free" /\ budget.query > 0 /\ OTREnabled(st[p])
   /\ Effect(p, Query(st[p]), [a |-> "Query", p |-> p], net[p])
   /\ budget' = [budget EXCEPT !.query = @ - 1]
-  /\ UNCHANGED <<phase, pc, nt, nsend, delivered, accepted, rejects, used>>
+  /\ UNCHANGED <<phase, pc, nt, nsend, delivered, accepted, rejects, used, nrun, smplog>>
 
 UserEnd(p) ==
   /\ phase = "free" /\ budget.end > 0
   /\ Effect(p, End(st[p]), [a |-> "End", p |-> p], net[p])
   /\ budget' = [budget EXCEPT !.end = @ - 1]
-  /\ UNCHANGED <<phase, pc, nt, nsend, delivered, accepted, rejects, used>>
+  /\ UNCHANGED <<phase, pc, nt, nsend, delivered, accepted, rejects, used, nrun, smplog>>
 
 UserTick(p) ==
   /\ phase = "free" /\ budget.tick > 0
   /\ ~(st[p].hb /\ ~st[p].rstep /\ ~st[p].renc)
   /\ Effect(p, Tick(st[p]), [a |-> "Tick", p |-> p], net[p])
   /\ budget' = [budget EXCEPT !.tick = @ - 1]
-  /\ UNCHANGED <<phase, pc, nt, nsend, delivered, accepted, rejects, used>>
+  /\ UNCHANGED <<phase, pc, nt, nsend, delivered, accepted, rejects, used, nrun, smplog>>
 
 UserExtra(p) ==
   /\ phase = "free" /\ budget.extra > 0 /\ st[p].ms = "enc"
   /\ Len(net[Other(p)]) < MaxFlight
   /\ Effect(p, ExtraKey(st[p]), [a |-> "ExtraKey", p |-> p], net[p])
   /\ budget' = [budget EXCEPT !.extra = @ - 1]
-  /\ UNCHANGED <<phase, pc, nt, nsend, delivered, accepted, rejects, used>>
+  /\ UNCHANGED <<phase, pc, nt, nsend, delivered, accepted, rejects, used, nrun, smplog>>
 
 \* The prelude: a fixed sequence of user steps (the start pattern of a scenario),
 \* optionally followed by alternating deliveries until the network is quiet.
@@ -163,27 +173,27 @@ PreludeStep ==
            p == s.p
        IN /\ pc' = pc + 1
           /\ CASE s.a = "Query" -> /\ Effect(p, Query(st[p]), [a |-> "Query", p |-> p], net[p])
-                                     /\ UNCHANGED <<phase, budget, nt, nsend, delivered, accepted, rejects, used>>
+                                     /\ UNCHANGED <<phase, budget, nt, nsend, delivered, accepted, rejects, used, nrun, smplog>>
                [] s.a = "Send" -> LET r == Send(st[p], nt + 1)
                                   IN /\ Effect(p, r, [a |-> "Send", p |-> p, t |-> nt + 1], net[p])
                                      /\ nt' = nt + 1
                                      /\ accepted' = [accepted EXCEPT ![p] = IF st[p].ms = "enc" /\ ~r.err THEN Append(@, nt + 1) ELSE @]
-                                     /\ UNCHANGED <<phase, budget, nsend, delivered, rejects, used>>
+                                     /\ UNCHANGED <<phase, budget, nsend, delivered, rejects, used, nrun, smplog>>
                [] s.a = "Tick" -> /\ Effect(p, Tick(st[p]), [a |-> "Tick", p |-> p], net[p])
-                                  /\ UNCHANGED <<phase, budget, nt, nsend, delivered, accepted, rejects, used>>
+                                  /\ UNCHANGED <<phase, budget, nt, nsend, delivered, accepted, rejects, used, nrun, smplog>>
                [] s.a = "End" -> /\ Effect(p, End(st[p]), [a |-> "End", p |-> p], net[p])
-                                 /\ UNCHANGED <<phase, budget, nt, nsend, delivered, accepted, rejects, used>>
+                                 /\ UNCHANGED <<phase, budget, nt, nsend, delivered, accepted, rejects, used, nrun, smplog>>
                [] s.a = "Err" -> \* the peer's client sends an OTR error message to p
                                  /\ net' = [net EXCEPT ![p] = Append(@, ErrorMsg)]
                                  /\ path' = IF Export THEN Append(path, [a |-> "Err", p |-> p]) ELSE path
-                                 /\ UNCHANGED <<st, nx, nt, nsend, phase, budget, delivered, accepted, rejects, evlog, used, disclosedEver, leaks, txlog>>
+                                 /\ UNCHANGED <<st, nx, nt, nsend, phase, budget, delivered, accepted, rejects, evlog, used, disclosedEver, leaks, txlog, nrun, smplog>>
                [] s.a = "Deliver" -> /\ net[p] # <<>>
                                      /\ DeliverMsg(p, Head(net[p]), Tail(net[p]), 0, "Deliver")
                                      /\ UNCHANGED <<phase, budget>>
      ELSE IF PreludeDrain /\ net["B"] # <<>> THEN Deliver("B") /\ pc' = pc
      ELSE IF PreludeDrain /\ net["A"] # <<>> THEN Deliver("A") /\ pc' = pc
      ELSE /\ phase' = "free"
-          /\ UNCHANGED <<st, net, nx, nt, nsend, pc, budget, delivered, accepted, rejects, evlog, used, disclosedEver, leaks, txlog, path>>
+          /\ UNCHANGED <<st, net, nx, nt, nsend, pc, budget, delivered, accepted, rejects, evlog, used, disclosedEver, leaks, txlog, nrun, smplog, path>>
 
 \* "bag" network: the attacker picks any message in flight, may duplicate or drop
 DeliverAny(p) ==
@@ -205,9 +215,30 @@ Drop(p) ==
   /\ net' = [net EXCEPT ![p] = Tail(@)]
   /\ budget' = [budget EXCEPT !.drop = @ - 1]
   /\ path' = IF Export THEN Append(path, [a |-> "Drop", p |-> p]) ELSE path
-  /\ UNCHANGED <<st, nx, nt, nsend, pc, phase, delivered, accepted, rejects, evlog, used, disclosedEver, leaks, txlog>>
+  /\ UNCHANGED <<st, nx, nt, nsend, pc, phase, delivered, accepted, rejects, evlog, used, disclosedEver, leaks, txlog, nrun, smplog>>
 
 FreeDeliver(p) == phase = "free" /\ NetMode = "fifo" /\ Deliver(p) /\ pc' = pc
+
+UserSMPStart(p) ==
+  /\ phase = "free" /\ budget.smpstart > 0 /\ st[p].ms = "enc" /\ Len(net[Other(p)]) < MaxFlight
+  /\ \E sec \in Secrets : \E q \in BOOLEAN :
+        /\ Effect(p, SMPStart(st[p], sec, q, nrun + 1), [a |-> "SMPStart", p |-> p, s |-> sec, q |-> q], net[p])
+  /\ nrun' = nrun + 1
+  /\ budget' = [budget EXCEPT !.smpstart = @ - 1]
+  /\ UNCHANGED <<phase, pc, nt, nsend, delivered, accepted, rejects, used, smplog>>
+
+UserSMPAnswer(p) ==
+  /\ phase = "free" /\ budget.smpanswer > 0 /\ Len(net[Other(p)]) < MaxFlight
+  /\ \E sec \in Secrets :
+        Effect(p, SMPAnswer(st[p], sec), [a |-> "SMPAnswer", p |-> p, s |-> sec], net[p])
+  /\ budget' = [budget EXCEPT !.smpanswer = @ - 1]
+  /\ UNCHANGED <<phase, pc, nt, nsend, delivered, accepted, rejects, used, nrun, smplog>>
+
+UserSMPAbort(p) ==
+  /\ phase = "free" /\ budget.smpabort > 0 /\ st[p].ms = "enc" /\ Len(net[Other(p)]) < MaxFlight
+  /\ Effect(p, SMPAbort(st[p]), [a |-> "SMPAbort", p |-> p], net[p])
+  /\ budget' = [budget EXCEPT !.smpabort = @ - 1]
+  /\ UNCHANGED <<phase, pc, nt, nsend, delivered, accepted, rejects, used, nrun, smplog>>
 
 \* an offer with an arbitrary version list, made by anybody (offers are not authenticated)
 InjectOffer(p) ==
@@ -218,7 +249,7 @@ InjectOffer(p) ==
                                                ELSE [t |-> "Q", vs |-> SetToSeq(vs)])]
        /\ path' = IF Export THEN Append(path, [a |-> "Offer", p |-> p, vs |-> SetToSeq(vs), tagged |-> tagged]) ELSE path
   /\ budget' = [budget EXCEPT !.offer = @ - 1]
-  /\ UNCHANGED <<st, nx, nt, nsend, pc, phase, delivered, accepted, rejects, evlog, used, disclosedEver, leaks, txlog>>
+  /\ UNCHANGED <<st, nx, nt, nsend, pc, phase, delivered, accepted, rejects, evlog, used, disclosedEver, leaks, txlog, nrun, smplog>>
 
 Step ==
   \/ PreludeStep
@@ -226,6 +257,7 @@ Step ==
   \/ \E p \in Parties :
        \/ FreeDeliver(p)
        \/ UserSend(p) \/ UserQuery(p) \/ UserEnd(p) \/ UserTick(p) \/ UserExtra(p)
+       \/ UserSMPStart(p) \/ UserSMPAnswer(p) \/ UserSMPAbort(p)
        \/ DeliverAny(p) \/ Duplicate(p) \/ Drop(p)
 
 Next == Step /\ hiA' = hiA
@@ -304,6 +336,16 @@ AgreeInv ==
   (st["A"].ms = "enc" /\ st["B"].ms = "enc" /\ st["A"].sess = st["B"].sess) =>
      /\ st["A"].peer = "B" /\ st["B"].peer = "A"
      /\ st["A"].rev # st["B"].rev
+
+\* C11: SMP reports success exactly when the bound secret terms are equal (same fingerprints, same
+\* session, same secret) and the message belongs to the run in progress; never with unequal terms
+SMPSuccessSound == \A p \in Parties : \A i \in DOMAIN smplog[p] :
+   smplog[p][i][1] = "smp:Success" => (smplog[p][i][2] = smplog[p][i][3] /\ smplog[p][i][4])
+SMPFailureSound == \A p \in Parties : \A i \in DOMAIN smplog[p] :
+   smplog[p][i][1] = "smp:Failure" => smplog[p][i][2] # smplog[p][i][3]
+\* no stuck state: a quiet network with an SMP run half done is only ever waiting for the user
+SMPNotStuck == (Quiet /\ st["A"].ms = "enc" /\ st["B"].ms = "enc") =>
+   \A p \in Parties : st[p].smp \in {"nil", "expect1", "waiting"} \/ st[Other(p)].smp \in {"waiting", "nil", "expect1"}
 
 \* C15: own tag valid once set; the bound peer tag is a valid tag; bound peers never change
 TagInv == \A p \in Parties : /\ st[p].otag \in {0, TagOf(p)}
